@@ -47,3 +47,12 @@ Proof.
   intros Hinj Hfresh. apply (C16_max vs (adj_dir E) (comp_dir vs E)); auto.
   - apply comp_dir_sound. - apply comp_dir_complete.
 Qed.
+
+(** the token stream the generator prints - "-(a & b) &" per complement pair (or "true &"), then "true" / the maximality clause
+    "forall copies # ( .. ) => [vertices] >= [copies]" - parses to exactly form_all / form_max (parser = grammar, C08) *)
+From Rsbdd Require Import Syntax.Token Syntax.Parser Gen.GenText.
+Theorem C16_text_all comp : parse (all_tokens comp ++ TEof :: nil) = Ok (form_all comp) nil.
+Proof. exact (all_parses comp). Qed.
+Theorem C16_text_max vs comp cp : parse (max_tokens vs comp cp ++ TEof :: nil) = Ok (form_max vs comp cp) nil.
+Proof. exact (max_parses vs comp cp). Qed.
+Print Assumptions C16_text_max.
